@@ -690,7 +690,7 @@ fn render_struct_line(
         (Named(ident), None, Kind::OwnedInto | Kind::RefInto, TypeHint::Tuple) => 
             quote!(#obj #ident,),
         (Named(ident), None, Kind::OwnedIntoExisting | Kind::RefIntoExisting, TypeHint::Tuple) => {
-            let index = Unnamed(Index { index: f.idx as u32, span: Span::call_site() });
+            let index = Unnamed(Index { index: idx as u32, span: Span::call_site() });
             quote!(other.#index = #obj #ident;)
         },
         (Named(ident), None, Kind::FromOwned | Kind::FromRef, TypeHint::Struct | TypeHint::Unspecified | TypeHint::Unit) =>
@@ -719,7 +719,7 @@ fn render_struct_line(
                 quote!(#obj #index,)
             },
         (Unnamed(index), None, Kind::OwnedIntoExisting | Kind::RefIntoExisting, TypeHint::Tuple | TypeHint::Unspecified) => {
-            let index2 = Unnamed(Index { index: f.idx as u32, span: Span::call_site() });
+            let index2 = Unnamed(Index { index: idx as u32, span: Span::call_site() });
             quote!(other.#index2 = #obj #index;)
         },
         (Unnamed(index), None, Kind::FromOwned | Kind::FromRef, TypeHint::Tuple | TypeHint::Unspecified | TypeHint::Unit) =>
